@@ -59,6 +59,13 @@ MUTANTS += [
     ('stochastic_probs_not_clipped', G + 'envs/visibility_functions.py', "    probs = np.nan_to_num(counts_num / counts_den)", "    probs = np.nan_to_num(counts_num / counts_den) + 0.2", ['C06']),
     ('stochastic_probability_epsilon', G + 'envs/visibility_functions.py', "    probs = np.nan_to_num(counts_num / counts_den)", "    probs = counts_num / (counts_den + 1e-8)", ['C06']),
     ('stochastic_noise_float32_nonstrict', G + 'envs/visibility_functions.py', "    visibility = rng.random(probs.shape) < probs", "    visibility = rng.random(probs.shape, dtype=np.float32) <= probs", ['C06']),
+    # ---- identity-keyed memos (answers remembered by object, stale after an in-place edit)
+    ('functional_observation_memo_by_identity', G + 'envs/gridworld.py', "        observation = self._observation_function(state, rng=self._rng)\n",
+     "        memo = getattr(self, '_obs_memo', None)\n        if memo is not None and memo[0] is state:\n            return memo[1]\n        observation = self._observation_function(state, rng=self._rng)\n        self._obs_memo = (state, observation)\n", ['C05']),
+    ('shortest_path_distance_memo_by_identity', R, "    distance_prev = _distance_agent_object(state)\n    distance_next = _distance_agent_object(next_state)",
+     "    memo = getting_closer_shortest_path.__dict__.setdefault('_memo', {})\n    distance_prev = _distance_agent_object(state)\n    if memo.get('obj') is next_state:\n        distance_next = memo['d']\n    else:\n        distance_next = _distance_agent_object(next_state)\n        memo['obj'], memo['d'] = next_state, distance_next", ['C12']),
+    ('functional_step_snapshot_by_identity', G + 'envs/gridworld.py', "        next_state = transition_with_copy(\n            self._transition_function,\n            state,\n            action,\n            rng=self._rng,\n        )",
+     "        import pickle\n        snap = getattr(self, '_snap', None)\n        if snap is None or snap[0] is not state:\n            snap = self._snap = (state, pickle.dumps(state))\n        next_state = pickle.loads(snap[1])\n        self._transition_function(next_state, action, rng=self._rng)", ['C08', 'C09', 'C10', 'C11']),
     # ---- C09
     ('drop_overwrites_anything', T, "    can_be_dropped = isinstance(obj_front, Floor) or obj_front.holdable", "    can_be_dropped = True", ['C09']),
     ('obstacle_moves_by_assignment', T, "            state.grid.swap(position, next_position)", "            state.grid[next_position] = state.grid[position]", ['C09', 'C11']),
